@@ -1,3 +1,60 @@
-Require Import Base Opcode Tables Ops Tree Lexer Parser Print.
-Example placeholder_C14 : True. Proof. exact I. Qed.
-Print Assumptions placeholder_C14.
+(* C14 — Whitespace, comments and IndentByParentheses never change meaning.
+   Statements about `lex`, the model of parser.lex (compared with VerifLex on every run). Proofs: LexProofs.v.
+   PARTIAL: layout invariance of the lexer is proved (white-space separators; comments are tokens the parser
+   drops); that IndentByParentheses preserves the tokens is NOT proved - the model of the formatter is compared
+   with Go's on every string, and Go's tokens before/after formatting (once and twice) are compared directly. *)
+Require Import Base Opcode Tables Ops Tree Opt Flat Run Directives Lexer Print LexProofs.
+Open Scope Z_scope.
+
+(* the lexer inverts every rendering of a token list: any (possibly empty) run of Unicode white space between
+   tokens, empty only where the two neighbours cannot fuse; string literals are taken verbatim up to the next quote
+   (spaces, parentheses, semicolons, backslashes, line breaks inside them are content) *)
+Theorem C14_lex_render : forall is_letter is_number infix items fuel lead,
+  wf_items is_letter is_number infix items -> all_space lead ->
+  (length (lead ++ render items) < fuel)%nat ->
+  lex_loop is_letter is_number fuel infix (lead ++ render items) = Some (map fst items).
+Proof. exact lex_render. Qed.
+
+(* hence: the token sequence, and so the compiled program, depends only on the tokens, not on the layout *)
+Theorem C14_layout_invariance : forall is_letter is_number infix items1 items2,
+  wf_items is_letter is_number infix items1 -> wf_items is_letter is_number infix items2 ->
+  map fst items1 = map fst items2 ->
+  lex is_letter is_number infix (render items1) = lex is_letter is_number infix (render items2).
+Proof. exact layout_invariance. Qed.
+
+(* a comment is one token reaching to the end of its line, whatever it contains *)
+Theorem C14_comment_token : forall text s, ~ In 10%N text ->
+  next_raw (59%N :: text ++ 10%N :: s) = (RComment (59%N :: text), 10%N :: s).
+Proof. exact next_raw_comment. Qed.
+
+(* directives are read from the comments before the first other token only *)
+Theorem C14_leading_only : forall cs t rest, is_comment t = false ->
+  leading_comments (map KComment cs ++ t :: rest) = cs.
+Proof.
+  induction cs as [|c cs IH]; intros t rest Ht; cbn [map app leading_comments].
+  - destruct t; try reflexivity. discriminate.
+  - rewrite IH by exact Ht. reflexivity.
+Qed.
+
+(* the formatter: full statement, not proved (kept visible) *)
+Definition C14_indent_statement : Prop :=
+  forall s, option_map drop_comments (lex_tab false (Print.indent_by_parens s)) = option_map drop_comments (lex_tab false s).
+
+(* non-vacuity: the same tokens under three layouts, with a string containing every delimiter *)
+Definition toks : list tok := [KLParen; KIdent (ss "="); KStr (ss "a (b); c
+"); KIdent (ss "x.y"); KRParen].
+Example C14_ex :
+  lex_tab false (ss "(= ""a (b); c
+"" x.y)") = Some toks /\
+  lex_tab false (ss "(=	""a (b); c
+""x.y  )") = Some toks /\
+  lex_tab false (ss "(=""a (b); c
+""x.y  )") = None /\
+  option_map drop_comments (lex_tab false (ss " (  = ; note (
+   ""a (b); c
+""
+ x.y)")) = Some toks.
+Proof. vm_compute. repeat split. Qed.
+
+Print Assumptions C14_lex_render.
+Print Assumptions C14_layout_invariance.
